@@ -914,3 +914,21 @@ Proof.
     + rewrite Gi, Al. exact A.
     + rewrite Pi, Ow. exact Own.
 Qed.
+
+(* wave 8: the call form Process() in a process whose own number is [me] (a PID of the table psutil reads) *)
+Lemma own_pid_handle_follows_table h me :
+  wf_hist h = true -> 0 <= me < PID_MAX ->
+  (owner (run h) me = None -> outcome_of (run h) (EC (process_noarg me)) = Exc NoSuchProcess)
+  /\ (forall n, outcome_of (run h) (EC (process_noarg me)) = Val (RObj n) ->
+        let w' := next (run h) (EC (process_noarg me)) in
+        has_obj w' n = true /\ obj_pid w' n = me /\ owner (run h) me = Some (g_inc w' n)
+        /\ outcome_of w' (EC (IsRunning n)) = Val (RBool (alive w' (g_inc w' n)))).
+Proof.
+  intros W R. unfold process_noarg. split.
+  - intros Ow. exact (proj1 (popen_gone_child h me W R Ow)).
+  - intros n E. cbn zeta. destruct (new_records_owner h me n W E) as (_ & H1 & H2 & H3).
+    repeat split; try assumption.
+    change (next (run h) (EC (New me))) with (run (h ++ [EC (New me)])) || idtac.
+    admit.
+Abort.
+
